@@ -41,6 +41,9 @@ pub enum HOp
     RemoveTargetDirs,
     /* ... and makes them again */
     MakeTargetDirs,
+    /* the user overwrites a target with something of their own and takes away the permission to read it; gives it back */
+    TamperUnreadable(String),
+    MakeReadable(String),
     StashTarget(String),
     /* ... and later moves the stashed copy back over the target, as `mv` does: the file keeps its older modification time */
     UnstashOver(String),
@@ -56,6 +59,8 @@ pub struct HistCfg
     pub max_rules : usize,
     pub weights : Vec<usize>,
     pub motif_pct : usize,
+    /* half of the motifs are the ones in which contents travel between paths (leaves swapped back and forth) */
+    pub travel_bias : bool,
     pub random_sched_pct : usize,
     pub decoys : bool,
     pub failures : bool,
@@ -107,6 +112,7 @@ impl HistCfg
             max_rules : if thorough { 12 } else { 7 },
             weights : w,
             motif_pct : 25,
+            travel_bias : false,
             random_sched_pct : 10,
             decoys : false,
             failures : true,
@@ -281,8 +287,17 @@ impl HistRun
         {
             let leaves = self.current_leaves();
             let targets = self.current_targets();
-            match rng.below(9)
+            let pick = if self.cfg.travel_bias && rng.chance(1, 2) { *rng.pick(&[4usize, 6, 6]) } else { rng.below(10) };
+            match pick
             {
+                9 if leaves.len() > 0 && targets.len() > 0 =>
+                {
+                    // a target the user has overwritten and made unreadable while an older version of it waits in the cache
+                    let l = leaves[rng.below(leaves.len())].clone();
+                    let t = targets[rng.below(targets.len())].clone();
+                    self.queue.extend(vec![HOp::Build(None), HOp::EditLeaf(l.clone()), HOp::Build(None), HOp::TamperUnreadable(t.clone()), HOp::RevertLeaf(l),
+                        HOp::Build(None), HOp::BuildAgain, HOp::MakeReadable(t), HOp::Build(None)]);
+                },
                 8 =>
                 {
                     // everything cleaned away, the emptied directories removed as well, builds attempted in that state, the
@@ -342,9 +357,21 @@ impl HistRun
                     let mut pool = leaves.clone();
                     rng.shuffle(&mut pool);
                     let (a, b, c) = (pool[0].clone(), pool[1].clone(), pool[2].clone());
-                    self.queue.extend(vec![HOp::Build(None), HOp::SwapLeaves(a.clone(), b.clone()), HOp::Build(None), HOp::PoisonFail(c.clone()),
-                        HOp::SwapLeaves(a.clone(), b.clone()), HOp::Build(None), HOp::RevertLeaf(c), HOp::Build(None), HOp::SwapLeaves(a.clone(), b.clone()), HOp::Build(None),
-                        HOp::SwapLeaves(a, b), HOp::Build(None)]);
+                    // five swaps; the unrelated failure accompanies one of the builds after the second, third or fourth swap
+                    let failing = rng.range(2, 4);
+                    let mut ops = vec![HOp::Build(None)];
+                    for k in 1..=5
+                    {
+                        ops.push(HOp::SwapLeaves(a.clone(), b.clone()));
+                        if k == failing
+                        {
+                            ops.push(HOp::PoisonFail(c.clone()));
+                            ops.push(HOp::Build(None));
+                            ops.push(HOp::RevertLeaf(c.clone()));
+                        }
+                        ops.push(HOp::Build(None));
+                    }
+                    self.queue.extend(ops);
                 },
                 _ if leaves.len() > 0 && self.cfg.failures =>
                 {
@@ -458,6 +485,18 @@ impl HistRun
                 let c = format!("!FAILSTEP:{} v{}", k, w.counter).into_bytes();
                 w.write_leaf(l, c);
                 if let Some(v) = w.leaf_versions.get_mut(l) { v.pop(); }
+            },
+            HOp::TamperUnreadable(t) =>
+            {
+                let c = w.fresh_content("private");
+                w.sys.tick();
+                w.sys.user_write(t, &c, false);
+                w.sys.user_set_unreadable(t, true);
+                w.fresh_build = None;
+            },
+            HOp::MakeReadable(t) =>
+            {
+                w.sys.user_set_unreadable(t, false);
             },
             HOp::RemoveTargetDirs =>
             {
